@@ -108,7 +108,7 @@ func resetTerms() {
 
 type options struct {
 	loopBound, depthMax, qTimeout, encTimeout, pruneMs, workers, maxTerms, validate int
-	solver, keep, traceQ, mapOrder                                                string
+	solver, keep, traceQ, mapOrder, keepSat                                       string
 	cross, prof, decide, oneshot                                                  bool
 	seed                                                                          int64
 }
@@ -138,6 +138,7 @@ func main() {
 	fs.StringVar(&op.solver, "solver", "z3", "z3 | z3-new | cvc5")
 	fs.BoolVar(&op.cross, "cross", false, "cross-check every decided query with z3-new and cvc5")
 	fs.StringVar(&op.keep, "keep", "", "directory to keep SMT files in")
+	fs.StringVar(&op.keepSat, "keepsat", "", "directory into which the SMT file of every cube with a sat assert/panic/unwind query is copied")
 	fs.StringVar(&op.traceQ, "trace", "", "print the block trace of the model of the sat query with this label")
 	fs.BoolVar(&op.decide, "decide", false, "ask the pruning solver at every symbolic branch whether it is decided")
 	fs.StringVar(&op.mapOrder, "maporder", "symbolic", "symbolic: every range over a map visits the keys in a solver-chosen order; fixed: insertion order")
@@ -295,6 +296,29 @@ func runCube(prog *ssa.Program, pkg *ssa.Package, fn *ssa.Function, modPath stri
 		ex.call(fn, nil, nil, TT, nil)
 	}()
 	res.EncodeSecs = time.Since(t1).Seconds()
+	if dbg := os.Getenv("GOSMT_DEBUG_TT"); dbg != "" {
+		for _, q := range ex.queries {
+			if q.kind == "assert" && q.cond == TT {
+				f, _ := os.OpenFile(dbg, os.O_APPEND|os.O_CREATE|os.O_WRONLY, 0o644)
+				fmt.Fprintf(f, "TT-ASSERT %s cube=%v\n", q.label, consts)
+				if ex.sol != nil {
+					fmt.Fprintf(f, "  solver: checks=%d unsat=%d unknown=%d hits=%d restarts=%d dead=%v models=%d\n", ex.sol.checks, ex.sol.unsat, ex.sol.unknown, ex.sol.hits, ex.sol.restarts, ex.sol.dead, len(ex.sol.models))
+					for g, v := range ex.sol.cache {
+						if !v {
+							fmt.Fprintf(f, "  unsat-cached: %s\n", dumpTerm(g, 6))
+						}
+					}
+				}
+				for _, o := range ex.observes {
+					if t, ok := o.v.(*T); ok && (o.Label == "x" || o.Label == "y") {
+						fmt.Fprintf(f, "  obs %s = %s\n", o.Label, dumpTerm(t, 5))
+					}
+				}
+				f.Close()
+				break
+			}
+		}
+	}
 	if ex.profile != nil {
 		type pe struct {
 			f string
@@ -355,6 +379,17 @@ func runCube(prog *ssa.Program, pkg *ssa.Package, fn *ssa.Function, modPath stri
 	all := solveQueries(ex, qs, dir, time.Duration(op.qTimeout)*time.Second, op.workers, op.solver, op.cross, op.oneshot)
 	res.SolveSecs = time.Since(t2).Seconds()
 	res.NQueries = len(all)
+	if op.keepSat != "" {
+		for i := range all {
+			if all[i].Kind != "reach" && all[i].Verdict == "sat" && all[i].File != "" {
+				os.MkdirAll(op.keepSat, 0o755)
+				if b, err := os.ReadFile(all[i].File); err == nil {
+					h := sha256.Sum256([]byte(fmt.Sprint(consts)))
+					os.WriteFile(filepath.Join(op.keepSat, fmt.Sprintf("%x-%s", h[:4], filepath.Base(all[i].File))), b, 0o644)
+				}
+			}
+		}
+	}
 	for i := range all {
 		if keep == "" {
 			all[i].File = ""
